@@ -14,7 +14,7 @@ RULE = ('destination precision and each operand precision independently from {53
         'prec-1, prec, prec+1, far (no/partial/full overlap); near-cancellation x(1+2^-j)-x, the ...1000/...0fff borrow pattern across 1..5 limbs, '
         'low zero limbs, top limb 1; add/sub/mul/div/sqrt, _ui forms, set_q/set_z/set_d/set_str judged by |res-exact| < 2^(2-p)|exact| in exact '
         'rational arithmetic (sqrt by squares) and res == exact whenever operands and the exact value fit p bits; floor/ceil/trunc/neg/abs/mul_2exp/'
-        'div_2exp/set exact when representable (else bound, same sign, |res|<=|exact|); integer_p; get_str digit accuracy; format rules by the '
+        'ripple class (products just above a power of B from operands longer than the destination, all-ones + 1 ulp, B^n - 1 ulp, for mul_ui/mul/add/add_ui/sub/sub_ui/ui_sub/div_ui); div_2exp/set exact when representable (else bound, same sign, |res|<=|exact|); integer_p; get_str digit accuracy; format rules by the '
         'driver monitor after every call; set_prec/set_prec_raw between operations. distinct = (function, precisions, pattern, alias)')
 ASSUMPTIONS = ['p = mpf_get_prec(rop) read back from the result object (limb precision - 1 limbs)', 'fractions.Fraction exact']
 
@@ -73,6 +73,13 @@ def specs(rng, tier, wid, nw, env):
     for i in range(600 if q else 6000):
         k += 1
         if k % nw == wid: yield ('prec', rng.getrandbits(48))
+    # carries / borrows that ripple through every kept limb: products just above a power of B from operands longer than the destination
+    # (the carry-in from the dropped limbs overflows an all-ones kept part, A44), all-ones + 1, B^n - 1 ulp
+    for sub in ('mul_ui', 'mul', 'add', 'add_ui', 'sub', 'sub_ui', 'ui_sub', 'div_ui'):
+        for pd in (P[:5] if q else P[:6]):
+            for j in range(12 if q else 120):
+                k += 1
+                if k % nw == wid: yield ('ripple', sub, pd, rng.getrandbits(48))
     N = 20000 if q else 300000
     for i in range(N):
         c = rng.random()
@@ -184,6 +191,43 @@ def build(spec, env):
                 if op == 'mpf_floor' and res > ex: return [('mpf_floor:result-above-exact', d)]
                 if op == 'mpf_ceil' and res < ex: return [('mpf_ceil:result-below-exact', d)]
         return Case(cmds, check, 1, (op, pd, pa, alias, a < 0, abs(a) < 1), trivial=(a == 0))
+    if kind == 'ripple':
+        _, sub, pd, _s = spec
+        pl = plimbs(pd); extra = r.choice([0, 1, 1, 2, 3]); n = pl + 1 + extra; Bn = 1 << (64 * n); pa = 64 * (n + 1)
+        e = 64 * r.choice([0, 0, -1, 1, -n, 5]) + r.choice([0, 0, 0, 1, 63]); neg = r.random() < 0.3; alias = r.random() < 0.3
+        sgn = -1 if neg else 1
+        if sub in ('mul_ui', 'div_ui'):
+            u = r.choice([3, 5, 7, 10, 641, M, (1 << 63) + 1, r.getrandbits(64) | 3, r.getrandbits(20) | 3, 2, 1 << 32])
+            if sub == 'mul_ui': m = (Bn - 1) // u + r.choice([1, 1, 1, 0, 2])
+            else: m = (((1 << (64 * (n - 1))) * r.choice([1, 1, M])) * u + r.choice([0, 1, u - 1])) if r.random() < 0.7 else Bn - 1      # quotient just at / above c*B^k
+            ca, a = fcmd('F1', pa if not alias else pd, sgn * m, e)
+            cmds = ['f F0 %d 0 0 0' % pd, ca, 'c mpf_%s %s F1 #%d' % (sub, 'F1' if alias else 'F0', u)]; op = 'mpf_' + sub
+            ex = a * u if sub == 'mul_ui' else a / u; srcs = [a]
+        elif sub == 'mul':
+            k2 = r.randint(1, pl + 1); b = gen.nat(r, k2, r.choice(['rand', 'special', 'topmax'])) | 1; m = ((1 << (64 * (n + k2))) - 1) // b + r.choice([1, 1, 0])
+            ca, a = fcmd('F1', pa + 64 * k2, sgn * m, e); cb, bv = fcmd('F2', 64 * k2, b, r.choice([0, -64, 7]))
+            cmds = ['f F0 %d 0 0 0' % pd, ca, cb, 'c mpf_mul F0 %s %s' % (('F1', 'F2') if r.random() < 0.5 else ('F2', 'F1'))]; op = 'mpf_mul'; ex = a * bv; srcs = [a, bv]
+        else:
+            nk = r.choice([pl, pl + 1, pl + 1, n]); ones = (1 << (64 * nk)) - 1
+            m = r.choice([ones, ones, ones - r.choice([0, 1, M]), 1 << (64 * nk), (1 << (64 * nk)) + 1, 1 << (64 * nk - 1)])
+            ca, a = fcmd('F1', 64 * (nk + 1), sgn * m, e)
+            if sub in ('add_ui', 'sub_ui', 'ui_sub'):
+                u = r.choice([1, 1, 2, M, 1 << 63, r.getrandbits(64) | 1])
+                # put the unit of the integer at the lowest limb of the mantissa, one limb below it, or in the middle
+                ca, a = fcmd('F1', 64 * (nk + 1), sgn * m, -64 * r.choice([0, 0, 1, nk // 2, nk - 1]))
+                call = 'c mpf_ui_sub %s #%d F1' % ('F1' if alias else 'F0', u) if sub == 'ui_sub' else 'c mpf_%s %s F1 #%d' % (sub, 'F1' if alias else 'F0', u)
+                cmds = ['f F0 %d 0 0 0' % pd, ca, call]; op = 'mpf_' + sub
+                ex = {'add_ui': a + u, 'sub_ui': a - u, 'ui_sub': u - a}[sub]; srcs = [a]
+            else:
+                b = r.choice([1, 1, 2, M, r.getrandbits(64) | 1, (1 << 64) + 1]) * r.choice([1, -1])
+                cb, bv = fcmd('F2', 128, b, e - 64 * r.choice([0, 0, 1, 2]) + (64 * (nk - pl - 1) if r.random() < 0.5 else 0))
+                cmds = ['f F0 %d 0 0 0' % pd, ca, cb, 'c mpf_%s F0 F1 F2' % sub]; op = 'mpf_' + sub; ex = a + bv if sub == 'add' else a - bv; srcs = [a, bv]
+        def check(rep, ex=ex, op=op, srcs=srcs):
+            v, _ = split_reply(rep[len(cmds) - 1]); res, p_ = fval(v[0])
+            d = 'p=%d ripple %s' % (p_, ' '.join(c_[:150] for c_ in cmds[1:]))
+            if not within(res, ex, p_): return [('%s:error-exceeds-2^(2-p)' % op, d)]
+            if all(sigbits(x) <= p_ for x in srcs) and sigbits(ex) <= p_ and res != ex: return [('%s:not-exact-although-representable' % op, d)]
+        return Case(cmds, check, 1, ('ripple', sub, pd, extra, alias))
     if kind == 'ui':
         _, op, pd, pa, alias, _s = spec
         m = rand_mant(r, r.choice([pa, pa + 64, 20])) * r.choice([1, 1, -1]); e = r.choice([0, -1, -64, 64, -m.bit_length(), r.randint(-300, 300)])
